@@ -463,6 +463,97 @@ NUMSUF = dict(
 )
 
 
+NEWLINES_LEMMAS = r'''
+// one iteration of the outer loop of condense_newlines: token c absorbed the m tokens after it (m >= 0)
+pub proof fn lemma_run_iter(orig: Seq<Token>, n: int, cur0: Seq<Token>, rm0: Seq<usize>, c: int, cur1: Seq<Token>, rm1: Seq<usize>, cursor1: int, m: int, is_start: bool)
+    requires tiles(orig, n), cur0.len() == orig.len(), cur1.len() == orig.len(), 0 <= c < orig.len(), 0 <= m, c + m < orig.len(), orig.len() + 4 <= usize::MAX,
+        forall|i: int| c <= i < orig.len() ==> cur0[i] == orig[i],
+        forall|i: int| 0 <= i < orig.len() && i != c ==> cur1[i] == cur0[i],
+        forall|k: int| 0 <= k < rm0.len() ==> #[trigger] rm0[k] < c,
+        tiles(keepseq(cur0, rm0, c), bnd(orig, n, c)),
+        cur1[c].span.start == orig[c].span.start, cur1[c].span.end == orig[c + m].span.end,
+        rm1 == rm0 + Seq::new(m as nat, |k: int| (c + 1 + k) as usize),
+        !is_start ==> m == 0 && cursor1 == c + 1,
+        is_start ==> cursor1 == c + m + 2,
+    ensures tiles(keepseq(cur1, rm1, imin(cursor1, orig.len() as int)), bnd(orig, n, imin(cursor1, orig.len() as int))),
+{
+    let len = orig.len() as int;
+    let tail = Seq::new(m as nat, |k: int| (c + 1 + k) as usize);
+    assert forall|i: int| #[trigger] in_rm(rm0, i) implies i < c by {
+        let k = choose|k: int| 0 <= k < rm0.len() && #[trigger] rm0[k] as int == i; assert(rm0[k] < c);
+    }
+    assert forall|i: int| #[trigger] in_rm(rm1, i) <==> (in_rm(rm0, i) || (c + 1 <= i <= c + m)) by {
+        if in_rm(rm0, i) { let k = choose|k: int| 0 <= k < rm0.len() && #[trigger] rm0[k] as int == i; assert(rm1[k] as int == i); }
+        if c + 1 <= i <= c + m { assert(tail[i - c - 1] as int == i); assert(rm1[rm0.len() + (i - c - 1)] as int == i); }
+        if in_rm(rm1, i) {
+            let k = choose|k: int| 0 <= k < rm1.len() && #[trigger] rm1[k] as int == i;
+            if k < rm0.len() { assert(rm0[k] as int == i); } else { assert(rm1[k] == tail[k - rm0.len()]); }
+        }
+    }
+    lemma_keepseq_agree(cur0, cur1, rm0, rm1, c);
+    assert(!in_rm(rm1, c));
+    lemma_tiles_bnd(orig, n, c);
+    lemma_tiles_bnd(orig, n, c + m);
+    lemma_tiles_mono(orig, n, c, c + m);
+    assert(keepseq(cur1, rm1, c + 1) == keepseq(cur1, rm1, c).push(cur1[c]));
+    lemma_tiles_push(keepseq(cur1, rm1, c), cur1[c], bnd(orig, n, c));
+    lemma_keepseq_skip(cur1, rm1, c + 1, c + m + 1);
+    assert(bnd(orig, n, c + m + 1) == orig[c + m].span.end);
+    if is_start && c + m + 1 < len {
+        assert(!in_rm(rm1, c + m + 1));
+        assert(cur1[c + m + 1] == orig[c + m + 1]);
+        lemma_keep_one(orig, n, cur1, rm1, c + m + 1);
+    }
+}
+
+'''
+
+NEWLINES = dict(
+    props=['C01', 'C02'],
+    requires=['sum_ws(old(self).tokens@, 0) <= usize::MAX', 'old(self).tokens@.len() + 4 <= usize::MAX',
+              'tiles(old(self).tokens@, old(self).source@.len() as int)'],
+    ensures=['tiles(final(self).tokens@, old(self).source@.len() as int)', 'final(self).source@ == old(self).source@'],
+    proofs=[dict(before='while cursor', kind='ghost', text='let ghost len0 = copy@.len();'),
+            dict(before='while cursor', kind='ghost', text='let ghost n = self.source@.len() as int;'),
+            dict(before='while cursor', text='assert(copy@ =~= self.tokens@); assert(keepseq(self.tokens@, remove_these@, 0) =~= Seq::<Token>::empty()); if len0 > 0 { assert(copy@[0].span.start == 0); }'),
+            dict(before='let start_tok', kind='ghost', text='let ghost c = cursor;'),
+            dict(before='let start_tok', kind='ghost', text='let ghost cur0 = self.tokens@;'),
+            dict(before='let start_tok', kind='ghost', text='let ghost rm0 = remove_these@;'),
+            dict(before='let start_tok', kind='ghost', text='let ghost mut m: int = 0;'),
+            dict(before='let start_tok', kind='ghost', text='let ghost mut is_nl = false;'),
+            dict(before='let start_tok', text='lemma_sum_ws_mono(copy@, 0, c as int);'),
+            dict(before='loop', text='is_nl = true;'),
+            dict(before='*start_count += n', text='lemma_sum_ws_mono(copy@, cursor as int + 1, cursor as int + 1); lemma_sum_ws_mono(copy@, 0, c as int);'),
+            dict(before='remove_these.', kind='ghost', text='let ghost before = remove_these@;'),
+            dict(after='remove_these.', text='''assert(remove_these@ =~= rm0 + Seq::new((m + 1) as nat, |k: int| (c + 1 + k) as usize)) by {
+                                let a = rm0 + Seq::new(m as nat, |k: int| (c + 1 + k) as usize);
+                                let b = rm0 + Seq::new((m + 1) as nat, |k: int| (c + 1 + k) as usize);
+                                assert(before == a);
+                                assert(a.push(cursor) =~= b);
+                            }
+                            m = m + 1;'''),
+            dict(before='self.tokens.remove_indices', text='assert(imin(cursor as int, len0 as int) == len0);'),
+            ],
+    loops={
+        1: dict(invariant=['copy@.len() == len0', 'self.tokens@.len() == len0', 'len0 + 4 <= usize::MAX', 'sum_ws(copy@, 0) <= usize::MAX',
+                           'cursor <= len0 + 4',
+                           'forall|i: int| cursor <= i < len0 ==> self.tokens@[i] == copy@[i]',
+                           'incr(remove_these@)', 'forall|k: int| 0 <= k < remove_these@.len() ==> #[trigger] remove_these@[k] < cursor && remove_these@[k] < len0',
+                           'tiles(copy@, n)', 'n == self.source@.len()', 'self.source@ == old(self).source@',
+                           'tiles(keepseq(self.tokens@, remove_these@, imin(cursor as int, len0 as int)), bnd(copy@, n, imin(cursor as int, len0 as int)))'],
+                decreases='len0 + 4 - cursor',
+                end_proof='lemma_run_iter(copy@, n, cur0, rm0, c as int, self.tokens@, remove_these@, cursor as int, m, is_nl);'),
+        2: dict(invariant=['copy@.len() == len0', 'c < len0', '0 <= m', 'c + m < len0', 'len0 + 4 <= usize::MAX', 'sum_ws(copy@, 0) <= usize::MAX',
+                           '*start_count + sum_ws(copy@, c + m + 1) <= sum_ws(copy@, c as int)',
+                           'incr(remove_these@)', 'forall|k: int| 0 <= k < remove_these@.len() ==> #[trigger] remove_these@[k] <= c + m && remove_these@[k] < len0',
+                           'tiles(copy@, n)', 'start_tok.span.start == copy@[c as int].span.start', 'start_tok.span.end == copy@[c + m].span.end',
+                           'remove_these@ == rm0 + Seq::new(m as nat, |k: int| (c + 1 + k) as usize)'],
+                invariant_except_break=['cursor == c + m'],
+                ensures=['cursor == c + m + 1'],
+                decreases='len0 + 1 - cursor'),
+    })
+
+
 DOTTED = dict(
     props=['C01', 'C02'],
     requires=['tiles(old(self).tokens@, old(self).source@.len() as int)', 'old(self).tokens@.len() + 2 <= usize::MAX'],
@@ -523,9 +614,10 @@ def build(repo):
     U.raw(DOT_LEMMAS, name='lemmas:dotted-initialisms', props=['C02'])
     U.raw(SPACES_LEMMAS, name='lemmas:condense-spaces', props=['C02'])
     U.raw(TILES_LEMMAS, name='lemmas:tiles', props=['C02'])
+    U.raw(NEWLINES_LEMMAS, name='lemmas:condense-newlines', props=['C02'])
     U.raw(NUMSUF_LEMMAS, name='lemmas:number-suffixes', props=['C02', 'C17'])
     U.impl(D, 'impl Document', {
-        'condense_newlines': condense_ws(),
+        'condense_newlines': NEWLINES,
         'condense_spaces': SPACES,
         'condense_dotted_initialisms': DOTTED,
         'get_span_content': dict(result='r', props=['C02'], requires=['span.start <= span.end', 'span.end <= self.sp_source().len()'],
